@@ -412,6 +412,37 @@ def dispatch(ctx):
                 "a string is used as the alias with default arguments")
     ctx.check(ok, R, f, sb[0], "a string is used as the alias with default arguments: %s.from_alias(%s)" % (fc, arg),
               "the str branch is not exactly `return %s.from_alias(%s)`" % (fc, arg), structural=True)
+    # (ii') any mapping is keyword arguments: a type test narrower than Mapping may not be the only way into that branch
+    pm_ = astq.parents(f)
+    wide = {"Mapping", "collections.abc.Mapping", "typing.Mapping", "abc.Mapping", "object"}
+    for n in f.body_nodes():
+        if not (isinstance(n, ast.If) and isinstance(n.test, ast.Call) and astq.is_name(n.test.func, "isinstance") and len(n.test.args) == 2
+                and astq.is_name(n.test.args[0], arg)):
+            continue
+        t = n.test.args[1]
+        names = [prog.dotted(x) or astq.text(x) for x in (t.elts if isinstance(t, ast.Tuple) else [t])]
+        if any(x in (fc, "str") for x in names) or any(x in wide for x in names):
+            continue
+        # the complement: the else branch, then what follows the `if` when its body always leaves
+        comp = list(n.orelse)
+        par = pm_.get(id(n))
+        sib = getattr(par, "body", []) if n in getattr(par, "body", []) else (getattr(par, "orelse", []) if n in getattr(par, "orelse", []) else [])
+        cur = n
+        while True:
+            par = pm_.get(id(cur))
+            if par is None or isinstance(par, (ast.FunctionDef, ast.For, ast.While)) and cur not in par.body:
+                break
+            sib = par.body if cur in getattr(par, "body", []) else (par.orelse if cur in getattr(par, "orelse", []) else [])
+            if cur in sib:
+                comp += sib[sib.index(cur) + 1:]
+            if isinstance(par, ast.FunctionDef) or not isinstance(par, ast.If):
+                break
+            cur = par
+        builds = any(isinstance(x, ast.Call) and isinstance(x.func, ast.Attribute) and x.func.attr == "from_alias" for st_ in comp for x in ast.walk(st_))
+        if not builds:
+            ctx.bad(R, f, n, "keyword arguments are accepted only from `%s`; any other mapping (a read-only MappingProxyType, a ChainMap, a frozen configuration "
+                    "object) %s" % (astq.text(t), "is rejected" if any(isinstance(x, ast.Raise) for st_ in comp for x in ast.walk(st_)) else "builds nothing"),
+                    "a mapping of any type is taken as keyword arguments", robust=True)
     # (iii) mutations only on fresh copies
     n_mut = 0
     for c in astq.func_calls(f):
